@@ -77,4 +77,16 @@ def run(ctx):
         alen = int(m.group(1)) if m else None
         ok = alen is not None and vals == {("RangeTo", alen), ("RangeFrom", alen)}
         ctx.ob("sorted|split-at-prefix-length", ok, f"reader ranges {sorted(vals, key=str)}; SortedKey.0 is [u8; {alen}]", bb_.loc())
+    ctx.rule("T6: audited panic surface of SpreadPrefixKeyMapper — the reader side may only panic where the key cannot have been produced by the "
+             "writer side (slicing off the fixed-length prefix); a further assert / unwrap on the remaining length is a key the writer emits "
+             "(e.g. an empty map key: prefix only) that no longer maps back")
+    bodies_k = [ctx.body(nm) for nm, f_ in sorted(F.fns.items()) if "db_key_mapper" in f_.mod and "SpreadPrefixKeyMapper" in nm]
+    audited_k = {
+        r"DatabaseKeyMapper>::field_from_db_sort_key$": {"index:alloc::vec::Vec": (1, "field keys are exactly one byte (written by field_to_db_sort_key)")},
+        r"DatabaseKeyMapper>::sorted_from_db_sort_key$": {"index:alloc::vec::Vec[range]": (2, "the two sort-prefix bytes and the rest, written by sorted_to_db_sort_key")},
+        r"SpreadPrefixKeyMapper::from_hash_prefixed$": {"index:[T][range]": (1, "drops the fixed HASHED_PREFIX_LENGTH bytes written by to_hash_prefixed (a prefix-only key yields the empty payload)")},
+        r"SpreadPrefixKeyMapper::to_hash_prefixed$": {"index:[T; N/#2][range]": (1, "takes HASHED_PREFIX_LENGTH <= 32 bytes of a 32-byte hash")},
+    }
+    tot_k, dis_k, lis_k = check_panic_surface(ctx, "key-mapper-panic-surface", [x for x in bodies_k if x is not None], audited_k, what="database key mapper")
+    ctx.floor("key-mapper-panic-surface|functions", len(bodies_k), 10)
     ctx.assume("injectivity / round-trip as equalities and order preservation are value-level; only the layout agreement that implies them is checked")
